@@ -147,6 +147,19 @@ package keeper
 //@ ensures [frame] forall key bytes :: key != types.ConsumerIdToPhaseKey(consumerId) && key != types.ConsumerIdToRemovalTimeKey(consumerId) && key != types.RemovalTimeToConsumerIdsKey(t) ==> S[key] == old(S[key])
 //@ ensures [no-deps] E == old(E) && X == old(X)
 
+//@ func Keeper.GetAllActiveConsumerIds pure
+//@ ensures [frame] S == old(S) && E == old(E) && X == old(X)
+
+//@ func Keeper.ValidatorConsensusKeyInUse
+//@ let ids := old(k.GetAllActiveConsumerIds(ctx))
+//@ let addr := types.NewConsumerConsAddress(old(k.stakingKeeper.GetValidator(ctx, valAddr)).0.GetConsAddr().0)
+//@ loop 1 invariant [idx] 0 <= _i && _i <= len(allConsumerIds)
+//@ loop 1 invariant [none-so-far] forall j int :: 0 <= j && j < _i ==> !k.GetValidatorByConsumerAddr(ctx, allConsumerIds[j], addr).1
+//@ loop 1 invariant [pure] S == old(S) && E == old(E) && X == old(X)
+//@ ensures [complete] !result ==> (forall j int :: 0 <= j && j < len(ids) ==> !old(k.GetValidatorByConsumerAddr(ctx, ids[j], addr)).1)
+//@ ensures [sound] result ==> (exists j int :: 0 <= j && j < len(ids) && old(k.GetValidatorByConsumerAddr(ctx, ids[j], addr)).1)
+//@ ensures [pure] S == old(S) && E == old(E) && X == old(X)
+
 // ---------------------------------------------------------------- C17: consumer - client - channel binding
 
 //@ func Keeper.VerifyConsumerChain
@@ -709,3 +722,15 @@ package keeper
 //@ ensures [lists-erased] err == nil ==> $DeleteKeyAssignments.called && $DeleteKeyAssignments.consumerId == consumerId && $DeleteAllowlist.called && $DeleteAllowlist.consumerId == consumerId && $DeleteDenylist.called && $DeleteDenylist.consumerId == consumerId && $DeleteAllOptedIn.called && $DeleteAllOptedIn.consumerId == consumerId && $DeleteConsumerValSet.called && $DeleteConsumerValSet.consumerId == consumerId && $DeletePrioritylist.called && $DeletePrioritylist.consumerId == consumerId
 //@ ensures [infraction-queue-cleared] err == nil ==> $RemoveConsumerInfractionQueuedData.called && $RemoveConsumerInfractionQueuedData.consumerId == consumerId
 //@ ensures [close-only-open] E != old(E) ==> ch.1 && old(k.channelKeeper.GetChannel(ctx, ccv.ProviderPortID, ch.0)).1 && old(k.channelKeeper.GetChannel(ctx, ccv.ProviderPortID, ch.0)).0.State != channeltypes.CLOSED
+
+// ---------------------------------------------------------------- C11 / C19: sending VSC packets
+
+//@ func Keeper.SendVSCPacketsToChain
+//@ loop 1 invariant [store-kept] S == old(S)
+//@ ensures [never-fails] result == nil
+//@ ensures [queue-kept-or-sent] S[providertypes.PendingVSCsKey(consumerId)] == old(S[providertypes.PendingVSCsKey(consumerId)]) || S[providertypes.PendingVSCsKey(consumerId)] == bnil
+
+//@ func Keeper.SendVSCPackets
+//@ precall SendVSCPacketsToChain [launched-only] k.GetConsumerPhase(ctx, $SendVSCPacketsToChain.consumerId) == providertypes.CONSUMER_PHASE_LAUNCHED
+//@ precall SendVSCPacketsToChain [own-channel] k.GetConsumerIdToChannelId(ctx, $SendVSCPacketsToChain.consumerId).1 && k.GetConsumerIdToChannelId(ctx, $SendVSCPacketsToChain.consumerId).0 == $SendVSCPacketsToChain.channelId
+//@ ensures [never-fails] result == nil
